@@ -28,6 +28,18 @@ def strings(ctx):
         out.append(("len", bytes(rng.randrange(256) for _ in range(n))))
         out.append(("len-ff", b"\xff" * n))
         out.append(("len-zeros", b"\x00" * n))
+    # every combination of per-limb choices around the limbs of r (a limb-wise comparison with r must get
+    # every "equal so far, then greater / smaller" pattern right)
+    rl = [(R >> (64 * i)) & (2 ** 64 - 1) for i in range(4)]
+    import itertools
+    for ch in itertools.product(range(6), repeat=4):
+        limbs = []
+        for i, c in enumerate(ch):
+            limbs.append([rl[i], (rl[i] - 1) % 2 ** 64, (rl[i] + 1) % 2 ** 64, 0, 2 ** 64 - 1, rng.randrange(2 ** 64)][c])
+        v = sum(l << (64 * i) for i, l in enumerate(limbs))
+        out.append(("limbs-around-r", v.to_bytes(32, "little")))
+        if rng.random() < 0.15:
+            out.append(("limbs-around-r", v.to_bytes(32, "big")))
     n_rand = ctx.n(4000, 400000)
     for _ in range(n_rand):
         k = rng.random()
